@@ -396,7 +396,7 @@ pub fn run(args: &[String]) -> i32 {
     let mut tr = Trace::create(&arg(args, "--out").expect("--out"));
     let mut n_inj = 0usize;
     for (ci, c) in cases.iter().enumerate() {
-        let o = one_case(c);
+        let o = if c["mode"] == "group" { Outcome { events: crate::c03g::one_case(c) } } else { one_case(c) };
         for mut e in o.events {
             e["case"] = json!(ci);
             n_inj += 1;
